@@ -101,6 +101,14 @@ Theorem C04_assortativity_wei : forall flag W ci ks,
   eval_s prims n (t_assortativity_wei flag) (pm p W) (pv p ci) ks == eval_s prims n (t_assortativity_wei flag) W ci ks.
 Proof. intros flag. exact (measure_equivariant_scalar prims prims_proper n p Hp (t_assortativity_wei flag)). Qed.
 
+Theorem C04_betweenness_bin : forall A ci ks i,
+  eval_v prims n t_betweenness_bin (pm p A) (pv p ci) ks i == eval_v prims n t_betweenness_bin A ci ks (p i).
+Proof. exact (measure_equivariant_vector prims prims_proper n p Hp t_betweenness_bin). Qed.
+(* coreness: a family of programs indexed by the number K of peeling levels (K = N-1 in the code) *)
+Theorem C04_kcoreness : forall und K A ci ks i,
+  eval_v prims n (t_kcoreness und K) (pm p A) (pv p ci) ks i == eval_v prims n (t_kcoreness und K) A ci ks (p i).
+Proof. intros und K. exact (measure_equivariant_vector prims prims_proper n p Hp (t_kcoreness und K)). Qed.
+
 (* LAPACK measures: only the defining equation (full statements: pagerank_full_statement,
    eigenvector_full_statement in Proofs/SymTermLib.v, not proved) *)
 Theorem C04_pagerank_equation_partial : forall A r d,
@@ -129,6 +137,12 @@ Theorem C04_run_equivariant : forall prims, (forall k a b, a == b -> prims k a =
   | KM => forall i j, (i < n)%nat -> (j < n)%nat -> res_at r' i j == res_at r (p i) (p j)
   end.
 Proof. exact run_equivariant. Qed.
+
+(* C04 as a predicate on measures (equivariant_measure, Proofs/SymTermLib.v): every measure DEFINABLE in the term
+   language has it, whatever the size, the renumbering, the inputs and the interpretation of sqrt / cbrt *)
+Theorem C04_every_term_measure_equivariant : forall prims, (forall k a b, a == b -> prims k a == prims k b) ->
+  forall pr, equivariant_measure (fun n => eval prims n pr).
+Proof. exact every_term_measure_equivariant. Qed.
 
 (* what some of the terms denote *)
 Theorem C04_denote_degrees_und : forall prims n A ci ks i,
@@ -163,11 +177,20 @@ Example C04_nonvacuous_kinds :
   out_kind t_clustering_coef_bu = KV /\ out_kind t_participation_coef = KV /\ out_kind t_module_degree_zscore = KV /\
   out_kind t_transitivity_bu = KS /\ out_kind (t_assortativity_wei 2) = KS /\ out_kind t_number_of_components = KS /\
   out_kind t_matching_all = KM /\ out_kind t_components_rel = KM /\ out_kind (t_subgraph_trunc 5) = KV /\
-  out_kind t_pagerank_residual = KV /\ out_kind t_eigen_residual = KV.
+  out_kind t_pagerank_residual = KV /\ out_kind t_eigen_residual = KV /\
+  out_kind t_betweenness_bin = KV /\ out_kind (t_kcoreness true 3) = KV.
 Proof. repeat split. Qed.
 Example C04_nonvacuous_distance :
   run_prog idp t_distance_bin exA [] [] = [[0;1;2;-1];[1;0;1;-1];[2;1;0;-1];[-1;-1;-1;0]].
 Proof. vm_compute. reflexivity. Qed.
+(* guarded max / min over all nodes: eccentricities of the path 0-1-2 (+ isolated node: masked row -> 1e20), and
+   radius / diameter of K2 *)
+Example C04_nonvacuous_bigop :
+  run_prog idp t_charpath_ecc exA [] [] = [[2;1;2;100000000000000000000]] /\
+  run_prog idp t_charpath_ecc (permA exl exA) [] [] = [[2;100000000000000000000;2;1]] /\
+  run_prog idp t_charpath_radius [[0;1;0];[1;0;1];[0;1;0]] [] [] = [[1]] /\
+  run_prog idp t_charpath_diameter [[0;1;0];[1;0;1];[0;1;0]] [] [] = [[2]].
+Proof. repeat split; vm_compute; reflexivity. Qed.
 (* the eigenvector equation has a non-trivial solution here: A = K2, v = (1,1), lambda = 1 *)
 Example C04_nonvacuous_eigen :
   is_eigenvector idp 2 (of_rows 0 [[0;1];[1;0]]) (of_list 0 [1;1]) 1.
@@ -191,10 +214,13 @@ Print Assumptions C04_participation_coef.
 Print Assumptions C04_module_degree_zscore.
 Print Assumptions C04_components.
 Print Assumptions C04_assortativity_wei.
+Print Assumptions C04_betweenness_bin.
+Print Assumptions C04_kcoreness.
 Print Assumptions C04_pagerank_equation_partial.
 Print Assumptions C04_eigenvector_equation_partial.
 Print Assumptions C04_subgraph_truncation_partial.
 Print Assumptions C04_list_permutation.
 Print Assumptions C04_run_equivariant.
+Print Assumptions C04_every_term_measure_equivariant.
 Print Assumptions C04_denote_degrees_und.
 Print Assumptions C04_denote_transitivity_bu.
